@@ -325,6 +325,8 @@ class NodeSetOp(OwningSetOp):
         super().__init__("module.py", "Module._NodeSet", "Module", child_cls, "_module", field, op)
         self.variant = field
         self.field = field
+        if field == "symbols":
+            self.props = PROPS + ("C10",)
         self.modifies = ("SetWrapper._data", "_module", "_interval_events", "_local_uuid_cache",
                          "_symbol_name_index", "_symbol_referent_index")
 
@@ -365,6 +367,8 @@ class ParentSetter(Contract):
         self.child_cls, self.prop, self.parent_cls = child_cls, prop, parent_cls
         self.parent_field, self.coll_field = parent_field, coll_field
         self.target = "%s::%s.%s.setter" % (file, child_cls, prop)
+        if child_cls == "Symbol":
+            self.props = PROPS + ("C10",)
         self.params = {"self": "ref:" + child_cls, "value": "optref:" + parent_cls}
         self.modifies = ("SetWrapper._data", parent_field, "_interval_events", "_local_uuid_cache",
                          "_symbol_name_index", "_symbol_referent_index")
@@ -576,3 +580,49 @@ def register(reg):
         ls = LoopSpec(_clear_inv(key), modifies=c.modifies, focus=wf_focus)
         ls.variant = _clear_variant
         reg.add_loop(c.target + "[" + key + "]", 0, ls)
+
+
+class NodeSetDiscardForeign(Contract):
+    """m.<field>.discard(v) for a node v of another kind (e.g. a symbol of the same module passed to m.sections.discard):
+    v is not a member of this set, so - as for a built-in set - nothing at all changes (C16; the ownership of v through its
+    own set is untouched: C04)"""
+    props = ("C16", "C04", "C03")
+    target = "module.py::Module._NodeSet.discard"
+    modifies = ()
+
+    def __init__(self, field, other_cls):
+        self.field, self.other_cls = field, other_cls
+        self.variant = "%s.discard(%s)" % (field, other_cls)
+        self.params = {"self": "ref:Module._NodeSet", "v": "ref:" + other_cls}
+        super().__init__()
+
+    def selects(self, self_cls, args, kwargs=None):
+        return False
+
+    def region_invariant(self, c):
+        return forest.inv_region(c)
+
+    def pre(self, c, a):
+        w, v = a.self.t, a.v.t
+        own = c.get("_node", w)
+        out = dict(WF(c))
+        out["is_wrapper"] = z3.And(forest.kind_is(c, w, "Module._NodeSet"), is_VRef(own), c.isinst(ref(own), "Module"),
+                                   c.get(self.field, ref(own)) == VRef(w))
+        out["is_other_kind"] = c.isinst(v, self.other_cls)
+        out["field_name"] = c.get("_field", w) == VStr(z3.StringVal(self.field))
+        return out
+
+    def post(self, c0, c1, a, res):
+        return {}
+
+
+_register_prev_foreign = register
+
+
+def register(reg):      # noqa: F811
+    _register_prev_foreign(reg)
+    kinds = {"sections": "Section", "symbols": "Symbol", "proxies": "ProxyBlock"}
+    for field in kinds:
+        for other in kinds.values():
+            if other != kinds[field]:
+                reg.add(NodeSetDiscardForeign(field, other))
